@@ -25,10 +25,14 @@ pub mod vlib_server {
     pub assume_specification<A: std::net::ToSocketAddrs> [std::net::UdpSocket::send_to] (_0: &std::net::UdpSocket, _1: &[u8], _2: A) -> std::result::Result<usize, std::io::Error>;
     pub assume_specification<A: std::net::ToSocketAddrs> [std::net::UdpSocket::bind] (_0: A) -> std::result::Result<std::net::UdpSocket, std::io::Error>;
     pub assume_specification [std::net::UdpSocket::set_nonblocking] (_0: &std::net::UdpSocket, _1: bool) -> std::result::Result<(), std::io::Error>;
+    /// provenance of a datagram length: `n` is a length `recv_from` returned. Uninterpreted and established by `recv_from` only, so
+    /// a contract can demand that the bytes handed to the parser are exactly the datagram that was received (not a length made
+    /// up afterwards, which would expose what an earlier datagram left in the buffer).
+    pub uninterp spec fn recv_len(n: usize) -> bool;
     pub assume_specification [std::net::UdpSocket::recv_from] (_0: &std::net::UdpSocket, buf: &mut [u8]) -> (r: std::result::Result<(usize, std::net::SocketAddr), std::io::Error>)
         ensures
             final(buf)@.len() == old(buf)@.len(),
-            r matches Ok(p) ==> p.0 <= old(buf)@.len();
+            r matches Ok(p) ==> p.0 <= old(buf)@.len() && recv_len(p.0);
     pub assume_specification [std::net::UdpSocket::local_addr] (_0: &std::net::UdpSocket) -> std::result::Result<std::net::SocketAddr, std::io::Error>;
 
     pub assume_specification<T> [core::mem::drop::<T>] (_0: T);
